@@ -29,4 +29,26 @@ CLAIMS = {
                 "validity/unit of ufunc results (not demanded by the statement). Known finding: label conflict between two "
                 "vector operands with different labels (left operand wins).",
     },
+    "C12": {
+        "technique": "static analysis: term normal form of the rotation matrix, corner updates and component mixing against the "
+                     "quarter-turn formula; functional store semantics for element assignments; in-place/copy sibling "
+                     "agreement; alias analysis of the mixing operands; guard dominance and raise-after-mutation on the CFG",
+        "level": _GEN + "For C12: region corners, field data, validity and vector components all use one rotation sense "
+                 "[[cos,-sin],[sin,cos]](k*pi/2) on (ax1, ax2); only the two rotated coordinates/components change; units and cell "
+                 "counts swap exactly for odd k; subregions rotate about the mesh's reference; labels, mapping, dtype, unit are kept; "
+                 "in-place and copy forms agree; refusals precede every mutation.",
+        "note": "Undecided: the point-wise identity g(R+Q(p-R)) = Q f(p) in floating point, k versus k mod 4, exactness of "
+                "cos(k*pi/2). Trusted: numpy's documented np.rot90 sense and np.dot.",
+    },
+    "C13": {
+        "technique": "static analysis: write-site audit (who may write each state slot, and that the stored term re-establishes "
+                     "the slot invariant), term normal form of the affine maps, in-place/copy sibling agreement over all seven "
+                     "transforming methods, guard dominance and raise-after-mutation on the CFG",
+        "level": _GEN + "For C13: every store to a Region/Mesh/Field slot is in the slot's owner set and stores an ordered corner "
+                 "pair / validated value; translate and scale realise x+v and R+s(x-R) on both corners and keep n; the in-place "
+                 "form returns self and stores what the copy form's constructor would store, the copy form never writes self; "
+                 "mesh-level steps apply the identical step to region and subregions; no raise can follow a mutation.",
+        "note": "Undecided: invariants after sequences beyond per-step preservation (induction is left to the reader), float "
+                "equality of in-place and copy results. Shared Mesh/Region objects between fields are a documented design choice.",
+    },
 }
